@@ -4,6 +4,7 @@ import (
 	"go/ast"
 	"go/token"
 	"go/types"
+	"reflect"
 	"strings"
 
 	"golang.org/x/tools/go/packages"
@@ -241,15 +242,68 @@ func ruleOpsLoop(c *Ctx) {
 			return
 		}
 		fname := pkgShort(pk.Types) + "." + name
+		// the list and what is derived from it by a local's only definition (its length, an alias, a remaining part)
+		derived := map[types.Object]bool{listObj: true}
+		defs := singleDefs(info, fd.Body)
+		for round := 0; round < 3; round++ {
+			for o, d := range defs {
+				if derived[o] || d.rhs == nil {
+					continue
+				}
+				for src := range derived {
+					if mentions(info, d.rhs, src) {
+						derived[o] = true
+					}
+				}
+			}
+		}
+		// (a local that is re-assigned from itself, `pending = pending[1:]`, has two definitions: take the defining one)
+		ast.Inspect(fd.Body, func(nd ast.Node) bool {
+			if as, ok := nd.(*ast.AssignStmt); ok && as.Tok == token.DEFINE && len(as.Lhs) == len(as.Rhs) {
+				for i, l := range as.Lhs {
+					if id, ok := l.(*ast.Ident); ok && mentions(info, as.Rhs[i], listObj) {
+						derived[info.Defs[id]] = true
+					}
+				}
+			}
+			return true
+		})
+		overList := func(nodes ...ast.Node) bool {
+			for _, nd := range nodes {
+				if nd == nil || reflect.ValueOf(nd).IsNil() {
+					continue
+				}
+				for o := range derived {
+					if e, ok := nd.(ast.Expr); ok && mentions(info, e, o) {
+						return true
+					}
+					if st, ok := nd.(ast.Stmt); ok {
+						hit := false
+						ast.Inspect(st, func(k ast.Node) bool {
+							if id, ok := k.(*ast.Ident); ok && info.ObjectOf(id) == o {
+								hit = true
+							}
+							return !hit
+						})
+						if hit {
+							return true
+						}
+					}
+				}
+			}
+			return false
+		}
 		var loops []ast.Node
 		ast.Inspect(fd.Body, func(nd ast.Node) bool {
 			switch x := nd.(type) {
+			case *ast.FuncLit:
+				return false
 			case *ast.RangeStmt:
-				if mentions(info, x.X, listObj) {
+				if overList(x.X) {
 					loops = append(loops, x)
 				}
 			case *ast.ForStmt:
-				if x.Cond != nil && mentions(info, x.Cond, listObj) {
+				if overList(x.Init, x.Cond, x.Post) {
 					loops = append(loops, x)
 				}
 			}
@@ -264,14 +318,14 @@ func ruleOpsLoop(c *Ctx) {
 			c.bad(key, loops[1].Pos(), "%s walks its operations %d times: the spec processes each operation completely (checks, then state change) before it looks at the next, so that a later operation is checked against the state the earlier ones left (the same exit, slashing or deposit twice in one block)", fname, len(loops))
 		default:
 			// the loop applies the operation: it calls the singular processing function, or a validating AND a mutating one
+			// (helpers and closures of the package called from the loop are read in place)
 			calls := map[string]bool{}
-			ast.Inspect(loops[0], func(k ast.Node) bool {
-				if cl, ok := k.(*ast.CallExpr); ok {
-					if f := calleeFunc(info, cl); f != nil {
-						calls[f.Name()] = true
-					}
+			top := newInlEnv(info, fd.Body, nil, nil, nil, nil)
+			seq := 0
+			walkInlined(c.P, pk, top, 0, map[*ast.BlockStmt]bool{}, &seq, func(st inlSite) {
+				if nd := st.nodeIn(top); nd != nil && loops[0].Pos() <= nd.Pos() && nd.End() <= loops[0].End() {
+					calls[st.f.Name()] = true
 				}
-				return true
 			})
 			applies := calls[singular]
 			for nm := range calls {
